@@ -98,6 +98,8 @@ type gen struct {
 	prevTrailing string
 	nameN        int
 	nameHint     string
+	// lineDirectives: //line directives emitted so far (per generator: unique target names)
+	lineDirectives int
 	last         []*expect
 }
 
@@ -316,6 +318,14 @@ func (g *gen) file1(pkg, file string, decls int) string {
 	g.emit("package " + pkg)
 	g.emit("")
 	for i := 0; i < decls; i++ {
+		if g.r.Intn(12) == 0 {
+			// a //line directive (generated sources: goyacc, templates): every position after it is reported under
+			// another file name and line; attribution must keep working (distinct, increasing targets: no collisions)
+			g.lineDirectives++
+			g.emit(fmt.Sprintf("//line gram%d.y:%d", g.lineDirectives, 1000*g.lineDirectives))
+			g.emit("")
+			g.prevTrailing = ""
+		}
 		switch g.r.Intn(8) {
 		case 0: // ungrouped scalar type, single line: may carry a trailing comment
 			d := g.doc("", true)
